@@ -152,18 +152,26 @@ class CacheView(Table):
 
     def __iter__(self):
 
+        # number of rows this iterator has served so far
+        nserved = 0
+
         # serve whatever is in the cache first
         for row in self.cache:
+            nserved += 1
             yield row
 
         if not self.cachecomplete:
 
             # serve the remainder from the inner iterator
             it = iter(self.inner)
-            for row in islice(it, len(self.cache), None):
-                # maybe there's more room in the cache?
-                if not self.n or len(self.cache) < self.n:
+            for row in islice(it, nserved, None):
+                # maybe there's more room in the cache? N.B., only cache the
+                # row if it is the next one missing from the cache, another
+                # iterator may have cached it already
+                if len(self.cache) == nserved \
+                        and (not self.n or len(self.cache) < self.n):
                     self.cache.append(row)
+                nserved += 1
                 yield row
 
             # does the cache contain a complete copy of the inner table?
